@@ -8,7 +8,9 @@ Open Scope Z_scope.
                                                  vars = [[name value] ...] values of the %variables the value uses
            [3 cmd params [host path rawquery]]   mod_redirect action
            [4 cmd params [host path rawquery] reqhdr]   bfe_basic/action.Action loaded from JSON and run with Do
-   output: VErr 1 (configuration rejected) | [host path rawquery] | [reqhdr rsphdr] | [url] | [[host path rawquery] reqhdr] *)
+           [5 rules [host path rawquery]]        mod_rewrite rule file; rules = [[match last [[cmd params] ...]] ...]
+   output: VErr 1 (configuration rejected) | [host path rawquery cache] (cache = [] if Request.Query is nil, else
+           [map] with map = [[key [values]] ...] sorted by key) | [reqhdr rsphdr] | [url] | [[host path rawquery cache] reqhdr] *)
 Definition dec_url (v : val) : option url :=
   match v with VL [VB h; VB p; VB q] => Some (mkUrl h p q) | _ => None end.
 Definition enc_url (u : url) : val := VL [VB (u_host u); VB (u_path u); VB (u_query u)].
@@ -21,11 +23,35 @@ Definition enc_hdr (h : header) : val := VL (map (fun kv => VL [VB (fst kv); vLB
 Definition dec_var (v : val) : option (bytes * bytes) :=
   match v with VL [VB n; VB x] => Some (n, x) | _ => None end.
 
+Definition enc_cache (c : option header) : val := match c with Some m => VL [enc_hdr m] | None => VL [] end.
+Definition dec_cache (v : val) : option (option header) :=
+  match v with
+  | VL [] => Some None
+  | VL [m] => match dec_hdr m with Some m' => Some (Some m') | None => None end
+  | _ => None
+  end.
+Definition enc_st (st : rstate) : val :=
+  VL [VB (u_host (s_url st)); VB (u_path (s_url st)); VB (u_query (s_url st)); enc_cache (s_cache st)].
+Definition dec_st (v : val) : option rstate :=
+  match v with
+  | VL [VB h; VB p; VB q; c] => match dec_cache c with Some c' => Some (mkSt (mkUrl h p q) c') | None => None end
+  | _ => None
+  end.
+Definition dec_action (v : val) : option (bytes * list bytes) :=
+  match v with VL [VB c; ps] => match as_LB ps with Some p => Some (c, p) | None => None end | _ => None end.
+Definition dec_rule (v : val) : option rw_rule :=
+  match v with
+  | VL [VZ m; VZ l; VL acts] =>
+    match all_some (map dec_action acts) with Some a => Some (negb (m =? 0), negb (l =? 0), a) | None => None end
+  | _ => None
+  end.
+
 Inductive cinput :=
 | IRewrite (cmd : bytes) (params : list bytes) (u : url)
 | IHeader (cmd : bytes) (params : list bytes) (req rsp : header) (vars : list (bytes * bytes))
 | IRedirect (cmd : bytes) (params : list bytes) (u : url)
-| IDirect (cmd : bytes) (params : list bytes) (u : url) (h : header).
+| IDirect (cmd : bytes) (params : list bytes) (u : url) (h : header)
+| IRules (rs : list rw_rule) (u : url).
 Definition dec_in (v : val) : option cinput :=
   match v with
   | VL [VZ 1; VB c; ps; u] =>
@@ -37,6 +63,8 @@ Definition dec_in (v : val) : option cinput :=
     end
   | VL [VZ 3; VB c; ps; u] =>
     match as_LB ps, dec_url u with Some p, Some u' => Some (IRedirect c p u') | _, _ => None end
+  | VL [VZ 5; VL rs; u] =>
+    match all_some (map dec_rule rs), dec_url u with Some r, Some u' => Some (IRules r u') | _, _ => None end
   | VL [VZ 4; VB c; ps; u; h] =>
     match as_LB ps, dec_url u, dec_hdr h with Some p, Some u', Some h' => Some (IDirect c p u' h') | _, _, _ => None end
   | _ => None
@@ -44,31 +72,32 @@ Definition dec_in (v : val) : option cinput :=
 
 Inductive coutput :=
 | ORejected
-| OUrl (u : url)
+| OUrl (st : rstate)
 | OHdrs (req rsp : header)
 | ORedirect (target : bytes)
-| ODirect (u : url) (h : header).
+| ODirect (st : rstate) (h : header).
 Definition model (i : cinput) : coutput :=
   match i with
-  | IRewrite c p u => match rewrite_run c p u with Some u' => OUrl u' | None => ORejected end
+  | IRewrite c p u => match rewrite_run c p u with Some st => OUrl st | None => ORejected end
+  | IRules rs u => match rewrite_rules_run rs u with Some st => OUrl st | None => ORejected end
   | IHeader c p a b vars => match header_run vars c p a b with Some (a', b') => OHdrs a' b' | None => ORejected end
   | IRedirect c p u => match redirect_run c p u with Some t => ORedirect t | None => ORejected end
-  | IDirect c p u h => match direct_run c p u h with Some (u', h') => ODirect u' h' | None => ORejected end
+  | IDirect c p u h => match direct_run c p u h with Some (st, h') => ODirect st h' | None => ORejected end
   end.
 Definition enc_out (o : coutput) : val :=
   match o with
   | ORejected => VErr 1
-  | OUrl u => enc_url u
+  | OUrl st => enc_st st
   | OHdrs a b => VL [enc_hdr a; enc_hdr b]
   | ORedirect t => VL [VB t]
-  | ODirect u h => VL [enc_url u; enc_hdr h]
+  | ODirect st h => VL [enc_st st; enc_hdr h]
   end.
 Definition dec_out (i : cinput) (v : val) : option coutput :=
   match v with
   | VL [VZ e; VZ c] => if (e =? -1) && (c =? 1) then Some ORejected else None
   | _ =>
     match i with
-    | IRewrite _ _ _ => match dec_url v with Some u => Some (OUrl u) | None => None end
+    | IRewrite _ _ _ | IRules _ _ => match dec_st v with Some st => Some (OUrl st) | None => None end
     | IHeader _ _ _ _ _ =>
       match v with
       | VL [a; b] => match dec_hdr a, dec_hdr b with Some a', Some b' => Some (OHdrs a' b') | _, _ => None end
@@ -77,7 +106,7 @@ Definition dec_out (i : cinput) (v : val) : option coutput :=
     | IRedirect _ _ _ => match v with VL [VB t] => Some (ORedirect t) | _ => None end
     | IDirect _ _ _ _ =>
       match v with
-      | VL [a; b] => match dec_url a, dec_hdr b with Some u, Some h => Some (ODirect u h) | _, _ => None end
+      | VL [a; b] => match dec_st a, dec_hdr b with Some st, Some h => Some (ODirect st h) | _, _ => None end
       | _ => None
       end
     end
@@ -141,6 +170,19 @@ Definition rw_effect (c : rwcmd) (params : list bytes) (u u' : url) : bool :=
       && is_suffix p1 (u_host u') && bytes_eqb (u_host u) (firstn (length (u_host u') - length p1) (u_host u') ++ p0)
     else url_eqb u' u
   end.
+(* the parsed query cached on the request: after a deleting action it holds no deleted key either *)
+Definition cache_effect (c : rwcmd) (params : list bytes) (cache : option header) : bool :=
+  match c, cache with
+  | QueryDel, Some m => forallb (fun k => negb (has_key k m)) params
+  | QueryDelAllExcept, Some m => forallb (fun kv => mem (fst kv) params) m
+  | QueryDel, None | QueryDelAllExcept, None => false
+  | _, _ => true
+  end.
+Definition rewrite_effect_st (cmd : bytes) (params : list bytes) (u : url) (st' : rstate) : bool :=
+  match rw_cmd_of cmd with
+  | Some c => rw_effect c params u (s_url st') && cache_effect c params (s_cache st')
+  | None => true
+  end.
 Definition rewrite_effect (cmd : bytes) (params : list bytes) (u u' : url) : bool :=
   match rw_cmd_of cmd with Some c => rw_effect c params u u' | None => true end.
 
@@ -164,12 +206,13 @@ Definition header_effect (vars : list (bytes * bytes)) (cmd : bytes) (params : l
   | None => true
   end.
 (* bfe_basic/action run directly: header commands touch only the request header, all others only the URL *)
-Definition direct_effect (cmd : bytes) (params : list bytes) (u : url) (h : header) (u' : url) (h' : header) : bool :=
+Definition direct_effect (cmd : bytes) (params : list bytes) (u : url) (h : header) (st' : rstate) (h' : header) : bool :=
+  let u' := s_url st' in
   match header_cmd cmd with
   | Some (true, HSet) => url_eqb u' u && hdr_effect HSet params h h'
   | Some (true, HAdd) => url_eqb u' u && hdr_effect HAdd params h h'
   | Some (true, HDel) => url_eqb u' u && hdr_effect HDel params h h'
-  | _ => hdr_eqb h' h && rewrite_effect cmd params u u'
+  | _ => hdr_eqb h' h && rewrite_effect_st cmd params u st'
   end.
 
 Definition redirect_effect (cmd : bytes) (params : list bytes) (u : url) (t : bytes) : bool :=
@@ -185,13 +228,15 @@ Definition redirect_effect (cmd : bytes) (params : list bytes) (u : url) (t : by
 Definition spec (i : cinput) (o : coutput) : bool :=
   match i, o with
   | IRewrite c p u, ORejected => negb (valid_rewrite_conf c p)
-  | IRewrite c p u, OUrl u' => rewrite_effect (to_upper c) p u u'
+  | IRewrite c p u, OUrl st' => rewrite_effect_st (to_upper c) p u st'
+  | IRules rs u, ORejected => negb (forallb (fun r => forallb (fun a => valid_rewrite_conf (fst a) (snd a)) (snd r)) rs)
+  | IRules rs u, OUrl _ => true        (* action sequences: tied by correspondence, effects claimed per single action *)
   | IHeader c p a b vars, ORejected => negb (valid_header_conf c p)
   | IHeader c p a b vars, OHdrs a' b' => header_effect vars c p a b a' b'
   | IRedirect c p u, ORejected => negb (valid_redirect_conf c p)
   | IRedirect c p u, ORedirect t => redirect_effect c p u t
   | IDirect c p u h, ORejected => negb (valid_rewrite_conf c p)
-  | IDirect c p u h, ODirect u' h' => direct_effect (to_upper c) p u h u' h'
+  | IDirect c p u h, ODirect st' h' => direct_effect (to_upper c) p u h st' h'
   | _, _ => false
   end.
 Definition prop_C49 (i o : val) : bool :=
